@@ -716,6 +716,27 @@ func (u *storeUnderTest) partialUnderflowProbe() string {
 	if msg != "" || len(before) == 0 {
 		return msg
 	}
+	// what vanished is gone for every observer alike: emptiness and the index range speak of the bins that are left
+	if c.IsEmpty() != (len(seen) == 0) {
+		return fmt.Sprintf("after Reweight(2^-1074) IsEmpty()=%v (TotalCount %v) but iteration reports %d bins", c.IsEmpty(), c.TotalCount(), len(seen))
+	}
+	if len(seen) > 0 {
+		l, h := math.MaxInt, math.MinInt
+		for i := range seen {
+			l, h = min(l, i), max(h, i)
+		}
+		mn, e1 := c.MinIndex()
+		mx, e2 := c.MaxIndex()
+		if e1 != nil || e2 != nil || mn != l || mx != h {
+			return fmt.Sprintf("after Reweight(2^-1074) the bins that still hold weight span [%d,%d] but MinIndex/MaxIndex are (%d,%v) (%d,%v)", l, h, mn, e1, mx, e2)
+		}
+		if k := c.KeyAtRank(0); !seen[k] {
+			return fmt.Sprintf("after Reweight(2^-1074) KeyAtRank(0)=%d is not a bin that still holds weight", k)
+		}
+		if len(seen) < len(before) {
+			u.cl.label("partial-underflow-lost-bins")
+		}
+	}
 	// weights are now whole numbers of subnormal units, whose sums are exact: three more units added below and above
 	// everything the store ever held (folded into the edge bin by a collapsing store) must show up in the iteration
 	sum := func() float64 {
